@@ -56,12 +56,15 @@ class World(object):
         os.makedirs(os.path.join(self.root, "wd", "sub"))
         with open(os.path.join(self.root, "wd", "sub", "in.csv"), "w") as f:
             f.write("a\n1\n")
+        os.makedirs(os.path.join(self.root, "sub"))      # for the empty working directory: relative to the current directory
+        with open(os.path.join(self.root, "sub", "in.csv"), "w") as f:
+            f.write("a\n1\n")
         os.chdir(self.root)
         self.progs = {}
         self.lib = None
 
     def wd(self, w):
-        return {"none": None, "abs": os.path.join(self.root, "wd"), "rel": "wd"}[w]
+        return {"none": None, "abs": os.path.join(self.root, "wd"), "rel": "wd", "empty": ""}[w]
 
     def program(self, env):
         key = json.dumps(env)
